@@ -190,6 +190,9 @@ type Known struct {
 	Sig      string `json:"signature"` // exact, or /regexp/
 	Gate     string `json:"gate,omitempty"`
 	Commit   string `json:"commit,omitempty"`
+	// Requires narrows a broad signature (a crash class): the failure's message - it quotes the failing program -
+	// must match this regular expression as well, otherwise the failure is NOT this finding and is reported.
+	Requires string `json:"requires,omitempty"`
 }
 
 var known []Known
@@ -228,6 +231,11 @@ func sigMatches(pat, sig string) bool {
 func MatchKnown(prop string, f *Failure) string {
 	for _, k := range known {
 		if k.Status == "open" && k.Property == prop && k.Sig != "" && sigMatches(k.Sig, f.Sig) && (k.Sub == "" || k.Sub == f.Sub) {
+			if k.Requires != "" {
+				if re, err := regexp.Compile(k.Requires); err != nil || !re.MatchString(f.Msg) {
+					continue
+				}
+			}
 			return k.ID
 		}
 	}
